@@ -306,6 +306,42 @@ theorem angleCos_eq (hr : IsSqrt r) (p v₁ v₂ : Fin (n + 1) → K) (hp : mink
   have := hr.pos h₂
   field_simp
 
+/-- **one convention for tangent vectors**: `(x, v)` and `(-x, -v)` are the same tangent vector, and
+`TangentVector.angle` respects it — replacing the second tangent vector by its other
+representative `(-p, -v₂)` does not change the reported cosine; for the same stored basepoint the
+pair version is the single-basepoint `angleCos` -/
+theorem angleCosPair_class (p v₁ v₂ : Fin (n + 1) → K) (hp : mink p p < 0) :
+    angleCosPair r p v₁ (fun i => -p i) (fun i => -v₂ i) = angleCosPair r p v₁ p v₂ ∧
+    angleCosPair r p v₁ p v₂ = angleCos r p v₁ v₂ := by
+  have hneg : ∀ x y : Fin (n + 1) → K, mink x (fun i => -y i) = -mink x y := by
+    intro x y
+    have : (fun i => -y i) = fun i => (-1 : K) * y i := by funext i; ring
+    rw [this, mink_mul_right]; ring
+  have hneg' : ∀ x y : Fin (n + 1) → K, mink (fun i => -x i) y = -mink x y := by
+    intro x y; rw [mink_comm, hneg, mink_comm]
+  have hproj : ∀ (b w : Fin (n + 1) → K), projHyp b (fun i => -w i) = fun i => -projHyp b w i := by
+    intro b w; funext i; simp only [projHyp, mproj, hneg']; ring
+  have hbase : ∀ w : Fin (n + 1) → K, projHyp (fun i => -p i) w = projHyp p w := by
+    intro w; funext i; simp only [projHyp, mproj, hneg, hneg']; field_simp
+  have hnorm : ∀ w : Fin (n + 1) → K, normalize r (fun i => -w i) = fun i => -normalize r w i := by
+    intro w
+    unfold normalize
+    rw [hneg, hneg', neg_neg]
+    split_ifs
+    · rfl
+    · funext i; ring
+  have htv : tvNormalizedVec r (fun i => -p i) (fun i => -v₂ i) = fun i => -tvNormalizedVec r p v₂ i := by
+    unfold tvNormalizedVec
+    rw [hbase, hproj, hnorm, hbase, hproj]
+  constructor
+  · unfold angleCosPair
+    have h1 : mink p (fun i => -p i) > 0 := by rw [hneg]; linarith
+    have h2 : ¬ mink p p > 0 := by linarith
+    rw [if_pos h1, if_neg h2, htv, hproj, hneg]; ring
+  · unfold angleCosPair angleCos
+    have h2 : ¬ mink p p > 0 := by linarith
+    rw [if_neg h2, one_mul]
+
 /-- hyperbolic law of cosines: the points at distances `a`, `b` along unit tangent vectors
 `v₁`, `v₂` at `p̂` are at `cosh`-distance `cosh a cosh b − sinh a sinh b ⟨v₁,v₂⟩`, where
 `⟨v₁,v₂⟩` is the cosine reported by `TangentVector.angle` -/
